@@ -81,6 +81,12 @@ def run(tier, v):
         if "panic" in row:
             v.violation({"part": "affinity", "frame": bytes(fam["frame"]).hex(), "observed": "panic: " + row["panic"]})
     r2 = vlib.tlc("TV_C18a", pid=PID, workers=8, env={"TRACE": trace}, timeout=1800, heap="10g")
+    if tier == "thorough":
+        def mut(rows):
+            r_ = json.loads(json.dumps(rows[-1]))
+            r_["groups"][0]["workers"] = sorted(set(r_["groups"][0]["workers"] + [(r_["groups"][0]["workers"][0] + 1) % max(2, r_["n"])]))
+            return rows[:3] + [r_], "one identity is recorded with two different workers"
+        v.binding.append(vlib.binding_demo("TV_C18a", trace, mut, PID, workers=4, timeout=900, heap="4g"))
     seen_bad = set()
     for b in r2.lines.get("BAD", []):
         key = (b["crate"], b["ident"], b["cls"])
@@ -172,6 +178,13 @@ def run(tier, v):
                 unroutable = sum(1 for fr in sum(run_["frames"], []) if len(fr) // 2 < 54 or bytes.fromhex(fr)[23] != 6)
             f.write(json.dumps({"k": "st", "dispatched": o["stats"]["dispatched"], "dropped": o["stats"]["dropped"], "unroutable": unroutable, "run": o["id"]}) + "\n")
     r3 = vlib.tlc("TV_Pool", pid=PID, workers=1, dfs=True, env={"TRACE": ptrace}, timeout=1800, coverage=False)
+    if tier == "thorough":
+        def mut2(rows):
+            # keep the first run only and repeat one worker-packet event: a packet analysed twice
+            first = [r_ for r_ in rows if r_["run"] == rows[0]["run"]]
+            k = next(i for i, r_ in enumerate(first) if r_["k"] == "wp")
+            return first[:k + 1] + [first[k]] + first[k + 1:], "one worker-packet event of the first pool run is duplicated (a packet analysed twice)"
+        v.binding.append(vlib.binding_demo("TV_Pool", ptrace, mut2, PID, workers=1, dfs=True, timeout=900))
     vd = (r3.lines.get("VERDICT") or [{"ok": False, "unmatched": "no verdict"}])[-1]
     if not vd["ok"]:
         ev = vd.get("unmatched")
